@@ -202,10 +202,10 @@ class WorldCheck:
         self._ast[key] = res
         return res
 
-    def request(self, scen, pats, result, dry=False, syntax=False, stdin=False):
+    def request(self, scen, pats, result, dry=False, syntax=False, stdin=False, relative=False):
         blocks = self.blocks(scen, pats)
         confok = blocks is not None
-        env, files, devs, tr, notes = self._parts(scen, result, dry, syntax, stdin, confok)
+        env, files, devs, tr, notes = self._parts(scen, result, dry, syntax, stdin, confok, relative=relative)
         req = 'M conform %s %s %s %s %s %s' % (blob(env), blob('\n'.join(blocks or [])), files, blob(devs),
                                                 hx(scen.stdin or b''), blob('\n'.join(tr)))
         return req, tr, notes
@@ -219,15 +219,31 @@ class WorldCheck:
                                                       hx(scen.stdin or b''), blob('\n'.join(tr)))
         return req, tr, notes
 
-    def _parts(self, scen, result, dry, syntax, stdin, confok):
+    def request_args(self, scen, result, argv, raw, conftext, permute=True, relative=False):
+        """The scenario for `M conformargs`: the run of `Model.mainArgs` from the argument vector `argv` (bytes, argv[1..]), the raw
+        environment `raw` = (HOME, pw_dir, TMPDIR, TZ, _PATH_TMP), each bytes or None = absent, and the text of the configuration file
+        the run reads.  Modes and paths are computed by the model (parseArgs, readenv, defaultconf); the mode words of <env> are unused."""
+        env, files, devs, tr, notes = self._parts(scen, result, False, False, False, False, relative=relative)
+        alines = '\n'.join(hx(a) for a in argv)
+        rlines = '\n'.join('~' if v is None else hx(v) for v in raw)
+        req = 'M conformargs %s %s %s %s %s %s %s %s %s' % ('31' if permute else '30', blob(alines), blob(rlines), blob(env), hx(conftext), files,
+                                                            blob(devs), hx(scen.stdin or b''), blob('\n'.join(tr)))
+        return req, tr, notes
+
+    def _parts(self, scen, result, dry, syntax, stdin, confok, relative=False):
+        """relative: the abstract file system names every directory relative to the sandbox root, which is the working directory of the
+        run (scenarios whose configuration names its maildirs by relative paths; absolute and relative names of one directory would be
+        two directories to the model); the run was started with `-f conf`."""
         env = ' '.join([proc.PIN['VSHIM_TIME'], proc.PIN['VSHIM_PID'], hx(proc.PIN['VSHIM_HOST'].encode()), proc.PIN['VSHIM_RANDOM'],
                         hx(os.path.join(scen.root, 'tmp').encode()), hx(os.path.join(scen.root, 'home').encode()),
-                        hx(os.path.join(scen.root, 'conf').encode()), '1' if dry else '0', '1' if syntax else '0', '1' if stdin else '0',
+                        hx(b'conf' if relative else os.path.join(scen.root, 'conf').encode()), '1' if dry else '0', '1' if syntax else '0', '1' if stdin else '0',
                         '1' if confok else '0'])
         files = []
         dirs = set()
         for rel, (kind, data, mt) in scen.initial.items():
-            full = os.path.join(scen.root, rel)
+            full = rel if relative else os.path.join(scen.root, rel)
+            if relative and '/' not in rel:
+                continue
             if kind == 'dir':
                 dirs.add(full)
             elif kind == 'file':
@@ -297,6 +313,8 @@ def compare(scen, result, answer):
     for d, ents in mfs.items():
         if not (d.endswith('/new') or d.endswith('/cur')):
             continue
+        if not d.startswith('/'):
+            d = os.path.join(scen.root, d)         # a scenario with relative names (request_args relative=True): the run's cwd is the root
         real = rfs.get(d, {})
         if set(real) != set(ents):
             return 'fs', 'directory %s: model %s, real %s' % (d, sorted(ents), sorted(real))
